@@ -6,9 +6,9 @@
      EACH: limit' <= #nodes, 1 <= limit', limit' <= #{cap >= need};
      FILL: the same with #{count + cap >= need}  (mathematical +).
    [total = satsum caps] is the saturating sum the caller passes. *)
-From Coq Require Import String ZArith List.
+From Coq Require Import String ZArith List Permutation.
 From Verif Require Import Base.GoInt Strategy.Model Strategy.ProofsBase Strategy.Proofs
-  Strategy.ProofsOk Strategy.ProofsOld.
+  Strategy.ProofsOk Strategy.ProofsOld Strategy.Glue Strategy.ProofsGlue.
 Local Open Scope Z_scope.
 
 Theorem C02_complete : forall infos need limit total,
@@ -53,3 +53,15 @@ Theorem C02_ok_meaning : forall c, valid_case c = true -> c_total c = satsum (ma
      o_res c = Err EInsufficientResource \/ o_res c = Err EInsufficientCapacity).
 Proof. exact ProofsOk.C02_ok_meaning. Qed.
 Print Assumptions C02_ok_meaning.
+
+Theorem C02_glue : forall caps order status need limit total,
+  valid_caps caps status -> Permutation caps order -> 0 < need -> 0 <= limit ->
+  forall s, s <> Other -> need <= max_int -> total = satsum (map ce_cap order) ->
+  (feasible s need limit (glue_infos order status) = true ->
+     (exists p, glue s need limit order status total = Ok p) \/
+     glue s need limit order status total = AlreadyFilled nil) /\
+  (feasible s need limit (glue_infos order status) = false ->
+     glue s need limit order status total = Err EInsufficientResource \/
+     glue s need limit order status total = Err EInsufficientCapacity).
+Proof. exact glue_C02. Qed.
+Print Assumptions C02_glue.
